@@ -261,9 +261,30 @@ def prefix_lengths(n, rng):
 def crash_states(fs0, events, rng):
     """-> (list of (point, files), final files, error or None).  files: dict basename -> bytes.
     point = {'event': i, 'call': text, 'prefix': k or None}: the process dies before call i (prefix None), or inside
-    write i after k bytes; the last entry is the state after the last call."""
+    write i after k bytes; the last entry is the state after the last call.
+    Bytes written through a buffered file object are only known to be in the file after flush()/close(): until then
+    any prefix of them may be (point['unflushed'] = how many)."""
     fs = dict(fs0)
+    pend = {}     # basename -> bytes written but not yet flushed
     out = []
+
+    def emit(i, call, prefix=None):
+        if not pend:
+            out.append(({'event': i, 'call': call, 'prefix': prefix}, dict(fs)))
+            return
+        names = sorted(pend)
+        lists = [prefix_lengths(len(pend[n]), rng) for n in names]
+        if len(names) > 1:
+            lists = [sorted(set(ks[:20] + ks[-20:])) for ks in lists]
+        combos = [[]]
+        for ks in lists:
+            combos = [c + [k] for c in combos for k in ks]
+        for c in combos:
+            files = dict(fs)
+            for n, k in zip(names, c):
+                files[n] = fs.get(n, b'') + pend[n][:k]
+            out.append(({'event': i, 'call': call, 'prefix': prefix, 'unflushed': dict(zip(names, c))}, files))
+
     i = -1
     for i, ev in enumerate(events):
         kind = ev[0]
@@ -271,26 +292,45 @@ def crash_states(fs0, events, rng):
             continue
         name = os.path.basename(ev[1])
         call = '%s(%s)' % (kind, ', '.join(os.path.basename(x) if isinstance(x, str) else '<%d bytes>' % len(x) for x in ev[1:]))
-        out.append(({'event': i, 'call': call, 'prefix': None}, dict(fs)))
+        emit(i, call)
         if kind == 'rename':
             if name not in fs:
                 return out, fs, 'rename of a missing file in the recorded trace'
-            fs[os.path.basename(ev[2])] = fs.pop(name)
+            dst = os.path.basename(ev[2])
+            fs[dst] = fs.pop(name)
+            pend.pop(dst, None)
+            if name in pend:
+                pend[dst] = pend.pop(name)
         elif kind == 'remove':
             if name not in fs:
                 return out, fs, 'remove of a missing file in the recorded trace'
             del fs[name]
+            pend.pop(name, None)
         elif kind == 'create':
             fs[name] = b''
+            pend.pop(name, None)
         elif kind == 'write':
             if name not in fs:
                 return out, fs, 'write to a missing file in the recorded trace'
-            base, data = fs[name], ev[2]
-            for k in prefix_lengths(len(data), rng):
-                if k:
-                    out.append(({'event': i, 'call': call, 'prefix': k}, dict(fs, **{name: base + data[:k]})))
-            fs[name] = base + data
-    out.append(({'event': i + 1, 'call': 'return', 'prefix': None}, dict(fs)))
+            others = {n: b for n, b in pend.items() if n != name}
+            if others:
+                pend[name] = pend.get(name, b'') + ev[2]
+            else:
+                # the usual case: label each state with the number of bytes of this write that reached the file
+                base, data = fs[name] + pend.get(name, b''), ev[2]
+                for k in prefix_lengths(len(data), rng):
+                    if k:
+                        out.append(({'event': i, 'call': call, 'prefix': k}, dict(fs, **{name: base + data[:k]})))
+                pend[name] = pend.get(name, b'') + data
+        elif kind in ('flush', 'close'):
+            if name in pend:
+                if name not in fs:
+                    return out, fs, 'flush of a missing file in the recorded trace'
+                fs[name] = fs[name] + pend.pop(name)
+        # fsync: the python-level buffer is not flushed by os.fsync; nothing changes in a process-crash model
+    emit(i + 1, 'return')
+    for n, b in pend.items():
+        fs[n] = fs.get(n, b'') + b
     return out, fs, None
 
 
@@ -442,7 +482,7 @@ class Runner:
                                            else 10 ** 6))
                 self.check_premises(payload, post, h, rng, origin)
                 # initial abstract state
-                init, preblob = self.initial(fs0, fname, h['use_backup'])
+                init, preblob = self.initial(fs0, fname, h['use_backup'], pre)
                 # recover from every crash state
                 seen = {}
                 obs = {}
@@ -501,20 +541,24 @@ class Runner:
             shutil.rmtree(base, ignore_errors=True)
 
     # -- helpers --------------------------------------------------------------------------------------------------
-    def initial(self, fs0, fname, ub):
+    def initial(self, fs0, fname, ub, pre):
         """abstract state before the save (codes of C08/Run.v) and the bytes that hold pre"""
+        from qtoggleserver.utils import json as json_utils
         by = {fname.get(n, '?'): b for n, b in fs0.items()}
-        if 'D' in by and by['D']:
+
+        def holds_pre(b):
+            try:
+                return self.jsonmod.JSONDriver._index(json_utils.loads(b, extra_types=json_utils.EXTRA_TYPES_EXTENDED)) == pre
+            except Exception:
+                return False
+        hold = None
+        if 'D' in by and by['D'] and holds_pre(by['D']):
             hold = 'D'
-        elif 'D' not in by and ub and 'B' in by:
+        elif ub and 'B' in by and holds_pre(by['B']):
             hold = 'B'
-        else:
-            hold = None
         code = {}
         for f in 'DBT':
-            code[f] = 0 if f not in by else (2 if f == hold else 5)
-        if hold is None and 'D' in by:
-            code['D'] = 1   # an empty data file at rest
+            code[f] = 0 if f not in by else 2 if f == hold else 1 if by[f] == b'' else 5
         return (code['D'], code['B'], code['T']), (by[hold] if hold else None)
 
     def masks(self, files, fname, preblob, payload):
@@ -706,7 +750,7 @@ def run(ctx, res, n):
 def check(ctx, res):
     res['rule'] = (
         'corpus histories, then random histories of 2-8 insert/update/replace/remove operations (two collections, nested '
-        'values, strings with quotes/braces/non-ASCII, datetimes; 80% use_backup, 50% pretty; 12% of the operations are '
+        'values, strings with quotes/braces/non-ASCII, datetimes; 80%% use_backup, 50%% pretty; 12%% of the operations are '
         'followed by a real crash at a random crash state + restart, after which the history goes on).  For every save: every '
         'crash state = before each file-system call, after every byte prefix of each write (all prefixes up to %d bytes, '
         'else the first/last %d and %d random ones), after the last call.  evaluations = fresh driver starts on distinct '
